@@ -107,6 +107,9 @@ func lsmOpts(x *seqExec) Options {
 	o.NumLevelZeroTablesStall = 9
 	o.NumMemtables = 4
 	o.NumVersionsToKeep = x.j.Int("nvk", 1)
+	if x.j.Bool("rebloom", false) {
+		o.BloomFalsePositive = 0 // start without bloom filters; RF toggles
+	}
 	o.BlockSize = 128
 	o.ValueThreshold = int64(x.j.Int("value_threshold", 64))
 	o.LmaxCompaction = true
@@ -352,6 +355,9 @@ func lsmEnabled(x *seqExec) []string {
 		}
 		if x.j.Bool("rebase", false) {
 			ops = append(ops, "RB") // re-open with a much larger / the original BaseLevelSize
+		}
+		if x.j.Bool("rebloom", false) {
+			ops = append(ops, "RF") // re-open with bloom filters switched on / off (existing tables keep what they were built with)
 		}
 	}
 	if x.j.Bool("closecompact", false) {
@@ -675,6 +681,13 @@ func lsmApply(x *seqExec, op string) bool {
 				st.opts.BaseLevelSize = int64(x.j.Int("base_level_size", 600))
 			}
 		}
+		if op == "RF" {
+			if st.opts.BloomFalsePositive == 0 {
+				st.opts.BloomFalsePositive = 0.01
+			} else {
+				st.opts.BloomFalsePositive = 0
+			}
+		}
 		if op == "RC" {
 			// re-open with another compression setting: existing tables keep the one recorded for them
 			if st.opts.Compression == options.None {
@@ -994,6 +1007,9 @@ func lsmKey(x *seqExec) string {
 	fmt.Fprintf(&b, "D%d|", dpos)
 	if st.opts.BaseLevelSize >= 1<<20 {
 		b.WriteString("bigbase|")
+	}
+	if x.j.Bool("rebloom", false) {
+		fmt.Fprintf(&b, "bloom%v|", st.opts.BloomFalsePositive > 0)
 	}
 	for _, sn := range st.snaps {
 		fmt.Fprintf(&b, "snap%d,", sort.Search(len(vs), func(i int) bool { return vs[i] > sn.ReadTs() }))
